@@ -145,7 +145,9 @@ func apacheV(t *rapid.T, l string) string {
 // ---------------------------------------------------------------- semver family
 
 var semIDs = []string{"0", "1", "2", "10", "11", "123456789012345678", "a", "b", "rc", "alpha", "beta", "RC", "Alpha",
-	"a-b", "-5", "-", "x", "-a", "1a", "a1", "0a", "rc1", "rc2", "rc10", "dev", "pre", "snapshot", "X", "next"}
+	"a-b", "-5", "-", "x", "-a", "1a", "a1", "0a", "rc1", "rc2", "rc10", "dev", "pre", "snapshot", "X", "next",
+	// numeric identifiers beyond 64 bits (outside C08's quantifier, inside C01's) and digit-leading alphanumerics between them
+	"99999999999999999999", "100000000000000000000", "18446744073709551616", "5a", "9z", "9223372036854775807", "9223372036854775808", "9223372036854775809"}
 
 // SemIdent draws one pre-release identifier (never a numeric identifier with
 // a leading zero).
